@@ -303,6 +303,11 @@ class _ExecDropFKConstraint(Executable, ClauseElement):
         self.schema = schema
 
 
+def _quote_in_literal(value: Any) -> str:
+    """escape a name that is embedded in a single-quoted T-SQL string"""
+    return str(value).replace("'", "''")
+
+
 @compiles(_ExecDropConstraint, "mssql")
 def _exec_drop_col_constraint(
     element: _ExecDropConstraint, compiler: MSSQLCompiler, **kw
@@ -321,10 +326,12 @@ where parent_object_id = object_id('%(schema_dot)s%(tname)s')
 and col_name(parent_object_id, parent_column_id) = '%(colname)s'
 exec('alter table %(tname_quoted)s drop constraint ' + @const_name)""" % {
         "type": type_,
-        "tname": tname,
-        "colname": colname,
-        "tname_quoted": format_table_name(compiler, tname, schema),
-        "schema_dot": schema + "." if schema else "",
+        "tname": _quote_in_literal(tname),
+        "colname": _quote_in_literal(colname),
+        "tname_quoted": _quote_in_literal(
+            format_table_name(compiler, tname, schema)
+        ),
+        "schema_dot": _quote_in_literal(schema) + "." if schema else "",
     }
 
 
@@ -341,10 +348,12 @@ on fk.object_id=fkc.constraint_object_id
 where fkc.parent_object_id = object_id('%(schema_dot)s%(tname)s')
 and col_name(fkc.parent_object_id, fkc.parent_column_id) = '%(colname)s'
 exec('alter table %(tname_quoted)s drop constraint ' + @const_name)""" % {
-        "tname": tname,
-        "colname": colname,
-        "tname_quoted": format_table_name(compiler, tname, schema),
-        "schema_dot": schema + "." if schema else "",
+        "tname": _quote_in_literal(tname),
+        "colname": _quote_in_literal(colname),
+        "tname_quoted": _quote_in_literal(
+            format_table_name(compiler, tname, schema)
+        ),
+        "schema_dot": _quote_in_literal(schema) + "." if schema else "",
     }
 
 
@@ -392,8 +401,12 @@ def visit_rename_column(
     element: ColumnName, compiler: MSDDLCompiler, **kw
 ) -> str:
     return "EXEC sp_rename '%s.%s', %s, 'COLUMN'" % (
-        format_table_name(compiler, element.table_name, element.schema),
-        format_column_name(compiler, element.column_name),
+        _quote_in_literal(
+            format_table_name(compiler, element.table_name, element.schema)
+        ),
+        _quote_in_literal(
+            format_column_name(compiler, element.column_name)
+        ),
         format_column_name(compiler, element.newname),
     )
 
@@ -414,6 +427,8 @@ def visit_rename_table(
     element: RenameTable, compiler: MSDDLCompiler, **kw
 ) -> str:
     return "EXEC sp_rename '%s', %s" % (
-        format_table_name(compiler, element.table_name, element.schema),
+        _quote_in_literal(
+            format_table_name(compiler, element.table_name, element.schema)
+        ),
         format_table_name(compiler, element.new_table_name, None),
     )
